@@ -27,15 +27,15 @@ type pendingUnlock struct {
 
 // ledger is the reference record of everything owed to the execution layer.
 type ledger struct {
-	Owed      map[string][]string // kind -> FIFO of canonical items not yet delivered
-	Delivered map[string]int      // kind -> count delivered
+	Owed                   map[string][]string // kind -> FIFO of canonical items not yet delivered
+	Delivered              map[string]int      // kind -> count delivered
 	BridgeNonce, LockNonce uint64
-	Unlocks   []pendingUnlock
-	Seq       int
-	Hashes    map[uint64]string // voted height -> hash (append-only)
-	Tip       uint64
-	Terminal  map[uint64]string // withdrawal id -> paid | refund (each id gets exactly one notice)
-	Dup       []string
+	Unlocks                []pendingUnlock
+	Seq                    int
+	Hashes                 map[uint64]string // voted height -> hash (append-only)
+	Tip                    uint64
+	Terminal               map[uint64]string // withdrawal id -> paid | refund (each id gets exactly one notice)
+	Dup                    []string
 }
 
 func newLedger(tip uint64) *ledger {
@@ -390,107 +390,113 @@ func runC06(r *mc.Run) {
 	r.Bounds["depth_blocks"] = depth
 	r.Rule = "tree search over block histories of the real application with queue-filling events (1/3 new block hashes, gap and rewrite batches, 9 deposits, 1+1 deposits, 9 withdrawals + 3 undecodable, process 9, finalize, 17 claims + 17 unlocks, failing execution-block message, 2 abandoned PrepareProposal rounds, restart); a reference ledger of owed items is compared with the system transactions of every finalised payload (FIFO per kind, caps, consecutive nonces, nothing dropped/duplicated/invented); every trace is drained with empty blocks; at every node with non-empty dues 9 mutations of the leading system transactions must be rejected by ProcessProposal and fail in FinalizeBlock"
 	r.Assumptions = []string{"single validator = proposer of every block", "unlock amounts 1 wei, withdrawals 100000 sat paid 90000"}
-	root, err := enga.NewWorld(engaCfg())
-	if err != nil {
-		panic(err)
-	}
-	defer root.Close()
-	root.Aux = newLedger(root.BtcTip())
-	menu := c06Menu(r.Thorough())
-	t := &enga.Tree{Run: r, Depth: depth,
-		Menu: func(w *enga.World, path []enga.ABlock) []enga.ABlock { return menu },
-		Pre: func(w *enga.World) any {
-			p := &c06Pre{head: w.Head(), batches: map[uint64][]uint64{}, nextWid: w.Bot.NextWid, nextReq: w.Bot.NextReq}
-			for pid, b := range w.Bot.Batches {
-				p.batches[pid] = append([]uint64{}, b.IDs...)
-			}
-			return p
-		},
-		Visit: func(path []enga.ABlock, pre any, child *enga.World, res *enga.Result) bool {
-			viol := func(b string) {
-				cls := b
-				if i := bytes.IndexByte([]byte(b), ':'); i > 0 {
-					cls = b[:i]
+	var explore func(r *mc.Run, only []enga.ABlock)
+	explore = func(r *mc.Run, only []enga.ABlock) {
+		root, err := enga.NewWorld(engaCfg())
+		if err != nil {
+			panic(err)
+		}
+		defer root.Close()
+		root.Aux = newLedger(root.BtcTip())
+		menu := c06Menu(r.Thorough())
+		t := &enga.Tree{Run: r, Depth: depth,
+			Menu: func(w *enga.World, path []enga.ABlock) []enga.ABlock { return menu },
+			Pre: func(w *enga.World) any {
+				p := &c06Pre{head: w.Head(), batches: map[uint64][]uint64{}, nextWid: w.Bot.NextWid, nextReq: w.Bot.NextReq}
+				for pid, b := range w.Bot.Batches {
+					p.batches[pid] = append([]uint64{}, b.IDs...)
 				}
-				r.Violate(mc.Violation{Class: cls, Msg: b + fmt.Sprintf(" | history %v", aPath(path)), Detail: engaDetail{Path: path}}, nil)
-			}
-			if res.Err != nil {
-				viol(fmt.Sprintf("honest-block-fails:%s: %v", res.Stage, res.Err))
-				return false
-			}
-			if res.AbandonChangedState {
-				viol("abandoned-proposal-round-changed-state")
-			}
-			for _, st := range res.AbandonedSysTxs {
-				for _, c := range res.Calls {
-					if c.Method == "forkchoiceUpdatedV3" && c.HasAttrs && fmt.Sprintf("%x", c.GoatTxs) != fmt.Sprintf("%x", st) {
-						viol("abandoned-round-consumed-system-txs: the finalised round proposes different system transactions than the abandoned one")
+				return p
+			},
+			Visit: func(path []enga.ABlock, pre any, child *enga.World, res *enga.Result) bool {
+				viol := func(b string) {
+					cls := b
+					if i := bytes.IndexByte([]byte(b), ':'); i > 0 {
+						cls = b[:i]
 					}
+					r.Violate(mc.Violation{Class: cls, Msg: b + fmt.Sprintf(" | history %v", aPath(path)), Detail: engaDetail{Path: path}}, nil)
 				}
-			}
-			l := child.Aux.(*ledger)
-			for _, b := range c06Account(l, pre.(*c06Pre), child, res) {
-				viol(b)
-			}
-			for _, e := range res.Block.Events {
-				if e.Var == "gap" || e.Var == "rewrite" {
-					for _, ok := range res.TxOK {
-						if ok {
-							viol("non-contiguous-hash-batch-accepted:" + e.Var)
+				if res.Err != nil {
+					viol(fmt.Sprintf("honest-block-fails:%s: %v", res.Stage, res.Err))
+					return false
+				}
+				if res.AbandonChangedState {
+					viol("abandoned-proposal-round-changed-state")
+				}
+				for _, st := range res.AbandonedSysTxs {
+					for _, c := range res.Calls {
+						if c.Method == "forkchoiceUpdatedV3" && c.HasAttrs && fmt.Sprintf("%x", c.GoatTxs) != fmt.Sprintf("%x", st) {
+							viol("abandoned-round-consumed-system-txs: the finalised round proposes different system transactions than the abandoned one")
 						}
 					}
 				}
-			}
-			if res.EthOK {
-				r.Outcome("payload-finalised")
-			} else {
-				r.Outcome("execution-message-failed")
-			}
-			if len(path) <= 2 {
-				c06Mutations(r, child, path)
-			}
-			if len(path) == depth {
-				// drain: everything owed must eventually be delivered, exactly once
-				d, err := child.Fork()
-				must(err)
-				d.Aux = l.Clone()
-				dl := d.Aux.(*ledger)
-				for i := 0; i < 12; i++ {
-					owed := 0
-					for _, q := range dl.Owed {
-						owed += len(q)
-					}
-					if owed == 0 && len(dl.Unlocks) == 0 {
-						break
-					}
-					p := &c06Pre{head: d.Head(), batches: map[uint64][]uint64{}, nextWid: d.Bot.NextWid, nextReq: d.Bot.NextReq}
-					rr := d.Run(enga.ABlock{Dt: 2})
-					r.Transitions.Add(1)
-					if rr.Err != nil {
-						viol(fmt.Sprintf("drain-block-fails:%s", rr.Stage))
-						break
-					}
-					for _, b := range c06Account(dl, p, d, rr) {
-						viol(b)
+				l := child.Aux.(*ledger)
+				for _, b := range c06Account(l, pre.(*c06Pre), child, res) {
+					viol(b)
+				}
+				for _, e := range res.Block.Events {
+					if e.Var == "gap" || e.Var == "rewrite" {
+						for _, ok := range res.TxOK {
+							if ok {
+								viol("non-contiguous-hash-batch-accepted:" + e.Var)
+							}
+						}
 					}
 				}
-				for kind, q := range dl.Owed {
-					if len(q) > 0 {
-						viol(fmt.Sprintf("owed-items-never-delivered:%s: %d left after draining", kind, len(q)))
-					}
+				if res.EthOK {
+					r.Outcome("payload-finalised")
+				} else {
+					r.Outcome("execution-message-failed")
 				}
-				for kind, n := range dl.Delivered {
-					if n > 0 {
-						r.Outcome("delivered-kind:" + kind)
-					}
+				if len(path) <= 2 {
+					c06Mutations(r, child, path)
 				}
-				d.Close()
-			}
-			return true
-		},
+				if len(path) == depth {
+					// drain: everything owed must eventually be delivered, exactly once
+					d, err := child.Fork()
+					must(err)
+					d.Aux = l.Clone()
+					dl := d.Aux.(*ledger)
+					for i := 0; i < 12; i++ {
+						owed := 0
+						for _, q := range dl.Owed {
+							owed += len(q)
+						}
+						if owed == 0 && len(dl.Unlocks) == 0 {
+							break
+						}
+						p := &c06Pre{head: d.Head(), batches: map[uint64][]uint64{}, nextWid: d.Bot.NextWid, nextReq: d.Bot.NextReq}
+						rr := d.Run(enga.ABlock{Dt: 2})
+						r.Transitions.Add(1)
+						if rr.Err != nil {
+							viol(fmt.Sprintf("drain-block-fails:%s", rr.Stage))
+							break
+						}
+						for _, b := range c06Account(dl, p, d, rr) {
+							viol(b)
+						}
+					}
+					for kind, q := range dl.Owed {
+						if len(q) > 0 {
+							viol(fmt.Sprintf("owed-items-never-delivered:%s: %d left after draining", kind, len(q)))
+						}
+					}
+					for kind, n := range dl.Delivered {
+						if n > 0 {
+							r.Outcome("delivered-kind:" + kind)
+						}
+					}
+					d.Close()
+				}
+				return true
+			},
+		}
+		t.Only = only
+		t.Explore(root)
+		r.Sample(map[string]any{"history": aPath([]enga.ABlock{menu[2], menu[5], menu[10]}), "mutations_per_node": 9})
 	}
-	t.Explore(root)
-	r.Sample(map[string]any{"history": aPath([]enga.ABlock{menu[2], menu[5], menu[10]}), "mutations_per_node": 9})
+	treeRecheck(r, explore)
+	explore(r, nil)
 }
 
 func replayC06(detail json.RawMessage) (bool, string) {
